@@ -692,50 +692,74 @@ func stepSign(phi *ssa.Phi, l *ssaLoop) int {
 	return sign
 }
 
+// edgeSign: +1 if the value is the header phi moved up by at least one on every way it can be computed, -1 if moved
+// down by at least one, 0 otherwise. The value may pass through other merges and through counters of inner loops
+// (which only add to it: `for i < 7 && … { i++ }` inside `for i := 0; i < 8; i++`).
 func edgeSign(e ssa.Value, phi *ssa.Phi, depth int) int {
-	if depth > 4 {
-		return 0
-	}
-	t := termOf(e)
-	if t.base == ssa.Value(phi) {
-		switch {
-		case t.k > 0:
-			return 1
-		case t.k < 0:
-			return -1
-		}
-		return 0
-	}
-	if p2, ok := t.base.(*ssa.Phi); ok && p2 != phi {
-		// every edge of the inner phi is phi itself (step 0 so far) or phi moved in the same direction
-		sign := 0
-		for _, e2 := range p2.Edges {
-			if e2 == ssa.Value(phi) {
-				continue
-			}
-			if e2 == ssa.Value(p2) {
-				continue
-			}
-			sg := edgeSign(e2, phi, depth+1)
-			if sg == 0 {
-				sg = edgeSign(e2, p2, depth+1)
-			}
-			if sg == 0 || (sign != 0 && sg != sign) {
-				return 0
-			}
-			sign = sg
-		}
-		if t.k > 0 && sign >= 0 {
-			return 1
-		}
-		if t.k < 0 && sign <= 0 {
-			return -1
-		}
-		if t.k == 0 {
-			return 0
-		}
+	lo, hi, ok := stepBounds(e, phi, map[*ssa.Phi]bool{}, 0)
+	switch {
+	case ok && lo >= 1:
+		return 1
+	case ok && hi <= -1:
+		return -1
 	}
 	return 0
+}
+
+const stepInf = int64(1) << 40
+
+// stepBounds bounds v - phi.
+func stepBounds(v ssa.Value, phi *ssa.Phi, visiting map[*ssa.Phi]bool, depth int) (int64, int64, bool) {
+	if depth > 8 {
+		return 0, 0, false
+	}
+	t := termOf(v)
+	if t.base == nil {
+		return 0, 0, false
+	}
+	if t.base == ssa.Value(phi) {
+		return t.k, t.k, true
+	}
+	p2, ok := t.base.(*ssa.Phi)
+	if !ok || visiting[p2] {
+		return 0, 0, false
+	}
+	visiting[p2] = true
+	defer delete(visiting, p2)
+	lo, hi := stepInf, -stepInf
+	selfUp, selfDown := false, false
+	for _, e2 := range p2.Edges {
+		// the merge fed by itself plus a constant: the counter of an inner loop
+		if t2 := termOf(e2); t2.base == ssa.Value(p2) {
+			switch {
+			case t2.k > 0:
+				selfUp = true
+			case t2.k < 0:
+				selfDown = true
+			}
+			continue
+		}
+		l2, h2, ok := stepBounds(e2, phi, visiting, depth+1)
+		if !ok {
+			return 0, 0, false
+		}
+		if l2 < lo {
+			lo = l2
+		}
+		if h2 > hi {
+			hi = h2
+		}
+	}
+	if lo == stepInf {
+		return 0, 0, false
+	}
+	if selfUp {
+		hi = stepInf
+	}
+	if selfDown {
+		lo = -stepInf
+	}
+	return lo + t.k, hi + t.k, true
 }
 
 // searchNextLoop: for i := find(xs, a); i >= 0; i = find(xs, i+k) with k ≥ 1, where find returns a negative constant or an
